@@ -67,7 +67,9 @@ def check_rerun(ctx, lib, rule):
                 later = [x[1] for x in s[1][s[1].index(st) + 1 :] if x[0] == "semi"] + [res]
                 good = unify(("call", P("run_constraints"), (stobj,)), res) is not None or unify(("try", ("call", P("run_constraints"), (stobj,))), res) is not None or unify(("ctor", P("Ok"), (("try", ("call", P("run_constraints"), (stobj,))),)), res) is not None
                 ctx.expect(good, rule, "%s|extend-then-rerun" % p, site, "a substitution extension on a state must be followed by state.run_constraints() as the value of that block (constraints waiting for this binding are otherwise never re-examined); block ends with %s" % show(res, maxdepth=4)[:160])
-    ctx.floor(rule, sites, 9, "substitution extensions on states")
+    has_clpz = any(q.startswith("crate::relation::clpz::") for q in lib.fns)
+    # 3 sites in the core (unify_rec x2, singleton domain) + 3 each in plusz / timesz
+    ctx.floor(rule, sites, 9 if has_clpz else 3, "substitution extensions on states")
 
 
 def check_unify_callers(ctx, lib, rule):
@@ -195,7 +197,8 @@ def check_readd(ctx, lib, rule):
             if r[0] == "ctor" and r[1].endswith("::Ok") and unify(STATE, r[2][0]) is not None:
                 ctx.violation(rule, key + "|unconditional-drop", site, "Constraint::run returns the state without the constraint unconditionally")
         ctx.ok(rule, key + "|readd-discipline", site, "%d fallback arm(s) checked" % nfb)
-    ctx.floor(rule, n, 10, "Constraint::run implementations")
+    has_clpz = any(q.startswith("crate::relation::clpz::") for q in lib.fns)
+    ctx.floor(rule, n, 10 if has_clpz else 8, "Constraint::run implementations")
 
 
 def _catch_all(p):
